@@ -39,12 +39,40 @@ var c03Points = []string{"exec.returned", "exec.pushed", "exec.unlocked", "submi
 
 func genC03(t *rapid.T) CaseC03 {
 	cfg := gkit.GenCfg{MaxNodes: 7, Depth: 1, Cycles: true, NoFailMix: true, SubModes: []string{"pregel", "dag", "workflow", "chain"}}
+	if rapid.IntRange(0, 2).Draw(t, "withState") == 0 {
+		// stateful graphs: handlers and ProcessState calls of concurrently finishing nodes share one lock
+		cfg.State, cfg.PS = true, true
+	}
 	var c CaseC03
 	if w := rapid.IntRange(0, 6).Draw(t, "wide"); w == 0 {
 		c.Spec = gkit.GenWide(t, cfg)
 	} else if w == 1 {
 		// directed: one join reached by plain edges and through branches of producers that finish in a generated order
 		c.Spec = gkit.GenJoinMix(t, cfg)
+	} else if w == 2 {
+		// directed: 2-5 producers of one step that all work on the graph's state (ProcessState, post-handlers); one
+		// of them may fail inside its state handler - the others still get at the state, in whatever order they finish
+		k := rapid.IntRange(2, 5).Draw(t, "stateFan")
+		sp := &gkit.Spec{Mode: []string{"dag", "pregel", "workflow"}[rapid.IntRange(0, 2).Draw(t, "stateFanMode")], In: "S", Out: "M", State: true}
+		for i := 0; i < k; i++ {
+			n := gkit.NodeSpec{Key: fmt.Sprintf("s%d", i), Kind: "lambda", In: "S"}
+			n.OutputKey = n.Key
+			n.PS = rapid.IntRange(0, 3).Draw(t, "ps") > 0
+			n.PostH = []string{"", "v", "s"}[rapid.IntRange(0, 2).Draw(t, "postH")]
+			sp.Nodes = append(sp.Nodes, n)
+			e := gkit.Edge{From: n.Key, To: gkit.End}
+			if sp.Mode == "workflow" {
+				e.ToKey = n.Key
+				sp.Nodes[i].OutputKey = ""
+			}
+			sp.Edges = append(sp.Edges, gkit.Edge{From: gkit.Start, To: n.Key}, e)
+		}
+		if rapid.Bool().Draw(t, "stateFanFault") {
+			fi := rapid.IntRange(0, k-1).Draw(t, "stateFanFaultNode")
+			sp.Nodes[fi].PS = true
+			sp.Nodes[fi].Fault = "pspanic"
+		}
+		c.Spec = sp
 	} else {
 		mode := []string{"pregel", "dag", "workflow", "workflow", "chain"}[rapid.IntRange(0, 4).Draw(t, "mode")]
 		c.Spec = gkit.GenTop(t, mode, cfg)
@@ -52,11 +80,15 @@ func genC03(t *rapid.T) CaseC03 {
 	c.Input = gkit.GenInput(t, c.Spec.In)
 	c.Paradigm = []string{"invoke", "invoke", "stream"}[rapid.IntRange(0, 2).Draw(t, "paradigm")]
 	allLambdas(c.Spec, "", false, func(n *gkit.NodeSpec, tag string, nm bool) { n.Gate = true })
-	if rapid.IntRange(0, 3).Draw(t, "withFault") == 0 {
+	if gkit.FaultNode(c.Spec) == nil && rapid.IntRange(0, 3).Draw(t, "withFault") == 0 {
 		var ls []*gkit.NodeSpec
 		allLambdas(c.Spec, "", false, func(n *gkit.NodeSpec, tag string, nm bool) { ls = append(ls, n) })
 		if len(ls) > 0 {
-			ls[rapid.IntRange(0, len(ls)-1).Draw(t, "faultNode")].Fault = []string{"err", "panic"}[rapid.IntRange(0, 1).Draw(t, "faultKind")]
+			fn := ls[rapid.IntRange(0, len(ls)-1).Draw(t, "faultNode")]
+			fn.Fault = []string{"err", "panic"}[rapid.IntRange(0, 1).Draw(t, "faultKind")]
+			if fn.PS && rapid.Bool().Draw(t, "faultInStateHandler") {
+				fn.Fault = "pspanic"
+			}
 		}
 	}
 	for i := 0; i < 10; i++ {
